@@ -205,7 +205,8 @@ def unrepresentable_cases():
     return st.fixed_dictionaries({
         "doc": S.doc_spec(max_depth=2, max_secs=2, max_props=2, text_classes=["plain"]),
         "bad": st.sampled_from(UNREPRESENTABLE),
-        "where": st.sampled_from(["value", "unit", "secname", "author", "definition"]),
+        "where": st.sampled_from(["value", "unit", "secname", "author", "definition", "name_blank_sec",
+                                  "name_blank_prop", "names_collide_sec", "names_collide_prop"]),
         "writer": st.sampled_from(WRITERS),
     })
 
@@ -216,7 +217,18 @@ def unrepresentable_body(case):
     sec = odml.Section(name="holder", type="t", parent=doc)
     prop = odml.Property(name="p", values=["ok"], parent=sec)
     bad = case["bad"]
-    if case["where"] == "value":
+    pad = [" ", "\t", "\n", "  "][len(bad) % 4]
+    if case["where"] == "name_blank_sec":
+        odml.Section(name=pad, type="t", parent=sec)
+    elif case["where"] == "name_blank_prop":
+        odml.Property(name=pad + pad, values=[1], parent=sec)
+    elif case["where"] == "names_collide_sec":
+        # distinct names that XML cannot tell apart: it does not keep surrounding whitespace
+        odml.Section(name="twin", type="t", parent=sec)
+        odml.Section(name="twin" + pad, type="t", parent=sec)
+    elif case["where"] == "names_collide_prop":
+        odml.Property(name=pad + "p", values=[2], parent=sec)
+    elif case["where"] == "value":
         prop.values = ["fine", bad]
     elif case["where"] == "unit":
         prop.unit = bad
